@@ -185,7 +185,8 @@ def bodies(C):
                 ["base" + csfx, "{% block k %}{% endblock %}"], ["child" + csfx, "{% extends 'base" + csfx + "' %}{% block k %}" + call + "{% endblock %}"],
                 ["host" + csfx, "{% include 't" + csfx + "' %}"]]
         steps = [{"op": "add", "tpls": tpls}] + [{"op": "render", "name": n + csfx} for n in ("t", "child", "host")] + \
-                [{"op": "render_str", "src": call, "auto": v["callerAE"]}]
+                [{"op": "render_str", "src": call, "auto": v["callerAE"]},
+                 {"op": "render_component", "name": "w", "auto": v["compAE"], "body": v["bt"], "ctx": {"a": "1"} if v["attrs"] else {}}]
         jobs.append({"cfg": {"autoescape": [".html"]}, "ctx": {"d": "<d>&\"'"}, "steps": steps})
         meta.append(v)
     res = vp.run_jobs(jobs, tag="c05-body", timeout=1200)
@@ -198,8 +199,16 @@ def bodies(C):
         if not rr[0].get("ok"):
             C.violation(dict(key, kind="body-rejected"), "templates refused: %s" % (rr[0].get("msg") or rr[0].get("disp", ""))[:200], {"job": job})
             continue
-        for site, x in zip(("template", "block of a child", "included template", "render_str"), rr[1:]):
+        api = rr[5]
+        for site, x in zip(("template", "block of a child", "included template", "render_str", "render_component"), rr[1:]):
             C.count()
+            if not v["uniform"]:
+                # mixed escaping modes: only the agreement of the template call with the API is demanded
+                if site != "render_component" and (bool(x.get("ok")) != bool(api.get("ok")) or x.get("out") != api.get("out")):
+                    C.violation(dict(key, site=site, kind="body-api"), "call body %s printed by the component (%s; caller %s, component %s; call from %s): engine %s, but render_component given the same body %r gives %s" % (
+                        v["body"], v["via"], "autoescaped" if v["callerAE"] else "not autoescaped", "autoescaped" if v["compAE"] else "not autoescaped", site,
+                        repr(x.get("out")) if x.get("ok") else "an error", v["bt"], repr(api.get("out")) if api.get("ok") else "an error"), {"job": job, "got": x, "api": api})
+                continue
             if not x.get("ok") or x.get("out") != v["out"]:
                 C.violation(dict(key, site=site), "call body %s printed by the component (%s; caller %s, component %s; call from %s): engine %s, statement %r" % (
                     v["body"], v["via"], "autoescaped" if v["callerAE"] else "not autoescaped", "autoescaped" if v["compAE"] else "not autoescaped", site,
